@@ -47,6 +47,9 @@ def asyncOf (j : Json) : AsyncOracle := fun v path b =>
       | .ok k => .fail (errKindOf k)
       | .error _ =>
         if (o.getObjValAs? Bool "echo").toOption = some true then .echo else
+        match o.getObjValAs? String "reply" with
+        | .ok r => .reply r.toList
+        | .error _ =>
         match o.getObjVal? "data" with
         | .ok (.obj kvs) => .message (kvs.toList.filterMap (fun (k, v) =>
             match v with | .str s => some (k, s.toList) | _ => none))
@@ -111,6 +114,7 @@ def handlePipeline (j : Json) : Json :=
         | .err ks => Json.mkObj [("err", Json.arr (ks.map (fun k => Json.str (errKindStr k))).toArray)]
       Json.mkObj [("changes", changesJson changes), ("ctx", Json.mkObj [("files", ctxJ)]),
         ("detected", Json.arr ((detected ctx (strList j "enabled") (strList j "disabled")).map Json.str).toArray),
+        ("ai_requests", Json.arr ((aiRequests re ctx).map tj).toArray),
         ("run", runJ), ("exit", exitCode out)]
 
 def tagJson (t : Tag.Tag) : Json :=
